@@ -57,9 +57,11 @@ Definition strat_known (t : stratT) : bool := forallb (fun e => known_strategy (
 Definition root_has_strategy (t : stratT) : bool := existsb (fun e => name_eqb (fst e) []) t.
 Definition spec_strategies (post : state) : bool := strat_known (s_strat post) && root_has_strategy (s_strat post).
 
-(* ---- faces stay usable: a positive fragment payload remains under the MTU (C10's frames_fit precondition) ---- *)
-Definition face_usable (f : faceT) : bool :=
-  negb (f_ndnlp f) || (header_overhead (f_opts f) + k_pit_token_overhead + k_congestion_mark_overhead <? f_mtu f).
+(* ---- faces stay usable: whatever link-service options are switched on, a positive fragment payload remains under
+   the MTU once the link headers, a PIT token and a congestion mark are accounted for (C10's frames_fit precondition) ---- *)
+Definition max_overhead : N :=
+  k_lp_packet_overhead + k_hdr_fragmentation + k_hdr_incoming_face + k_pit_token_overhead + k_congestion_mark_overhead.
+Definition face_usable (f : faceT) : bool := negb (f_ndnlp f) || (max_overhead <? f_mtu f).
 Definition faces_usable (st : state) : bool := forallb face_usable (s_faces st).
 (* CS capacity is a non-negative count *)
 Definition cs_sane (st : state) : bool := (0 <=? s_cs st)%Z.
